@@ -3,6 +3,7 @@
 package main
 
 import (
+	"github.com/ModChain/secp256k1/ecckd"
 	"math/big"
 	"strconv"
 
@@ -53,6 +54,21 @@ func genC20(h *H) {
 					res = hx(dec)
 				}
 				lines = append(lines, "bip_fromstring "+s+" b58d="+s+":"+res)
+			}
+		}
+	}
+	// well-formed extended keys among the junk (decoded into fresh and into long-lived receivers, see the op),
+	// their prefixes and one-byte extensions with the checksum recomputed
+	for i := 0; i < 2; i++ {
+		if m, err := ecckd.FromBitcoinSeed(h.randBytes(32)); err == nil {
+			c, _ := m.Child(uint32(h.rng.Intn(1<<31)) | 0x80000000)
+			if c == nil {
+				c = m
+			}
+			p, _ := c.Public()
+			for _, k := range []*ecckd.ExtendedKey{m, c, p} {
+				bin, _ := k.MarshalBinary()
+				lines = append(lines, "bip_unmarshal "+hx(bin), "bip_unmarshal "+hx(bin[:len(bin)-1]), "bip_unmarshal "+hx(append(append([]byte{}, bin...), 0)))
 			}
 		}
 	}
